@@ -1,6 +1,7 @@
 package tagformat
 
 import (
+	"fmt"
 	"reflect"
 
 	"github.com/fatih/structtag"
@@ -51,7 +52,7 @@ func (k *TagReformattingMangler) Mangle(sf reflect.StructField) ([]reflect.Struc
 
 	tags, parseErr := structtag.Parse(string(sf.Tag))
 	if parseErr != nil {
-		return nil, err
+		return nil, fmt.Errorf("failed to parse the struct tags of field %q: %w", sf.Name, parseErr)
 	}
 	tags.Set(&structtag.Tag{
 		Key:     k.tag,
